@@ -1507,6 +1507,9 @@ class Symex:
             return getattr(obj, attr)
         if isinstance(obj, int) and attr in ("numerator", "denominator", "real"):
             return getattr(obj, attr)
+        if is_num(obj) and attr in _NUMBER_FLAGS:
+            # python numbers stand for sympy numbers (cf. Rational -> Fraction): their assumption flags
+            return _NUMBER_FLAGS[attr](obj)
         if isinstance(obj, Func) and attr == "__name__":
             return getattr(obj.node, "name", "<lambda>")
         if hasattr(obj, "sx_getattr"):
@@ -1672,6 +1675,11 @@ class Symex:
                 r = self.hooks[hk](self, [recv] + list(args), kw)
                 if r is not NotImplemented:
                     return r
+            if self.attr_hook is not None:
+                # the attribute model of a term also resolves its methods (a callable attribute)
+                r = self.attr_hook(self, recv, name, node)
+                if r is not NotImplemented:
+                    return self.call_value(r, args, kw, node)
             return self.opaque_mcall(recv, name, args, kw)
         if isinstance(recv, Fraction) or is_num(recv):
             if name == "__ceil__":
@@ -2704,6 +2712,13 @@ def _walk_noscope(fn):
 _BIN = {ast.Add: operator.add, ast.Sub: operator.sub, ast.Mult: operator.mul, ast.Mod: operator.mod,
         ast.FloorDiv: operator.floordiv, ast.Pow: operator.pow, ast.BitAnd: operator.and_, ast.BitOr: operator.or_,
         ast.BitXor: operator.xor, ast.LShift: operator.lshift, ast.RShift: operator.rshift}
+
+_NUMBER_FLAGS = {
+    "is_number": lambda v: True, "is_Number": lambda v: True, "is_zero": lambda v: v == 0, "is_positive": lambda v: v > 0,
+    "is_negative": lambda v: v < 0, "is_Integer": lambda v: isinstance(v, int), "is_integer": lambda v: Fraction(v).denominator == 1,
+    "is_Rational": lambda v: True, "is_Atom": lambda v: True, "is_Add": lambda v: False, "is_Mul": lambda v: False,
+    "is_Pow": lambda v: False, "is_Symbol": lambda v: False, "args": lambda v: (),
+}
 
 _BUILTIN_CONST = {"True": True, "False": False, "None": None}
 _SYMPY_NUM = {"S.One": 1, "S.Zero": 0, "S.NegativeOne": -1, "S.Half": Fraction(1, 2)}
